@@ -160,7 +160,7 @@ def check_parallel_add_cms_w1(r0: int, r1: int, r2: int) -> bool:
     """
     pre: 0 <= r0 <= 10**6 and 0 <= r1 <= 10**6 and 0 <= r2 <= 10**6
     post: _ == True
-    timeout: 200
+    timeout: 600
     """
     return _pa_cms(1, 0, 0, 0, r0, r1, r2)
 
@@ -169,7 +169,7 @@ def check_parallel_add_cms_w2(a0: int, a1: int, a2: int, r0: int, r1: int, r2: i
     """
     pre: 0 <= a0 < 2 and 0 <= a1 < 2 and 0 <= a2 < 2 and 0 <= r0 <= 10**6 and 0 <= r1 <= 10**6 and 0 <= r2 <= 10**6
     post: _ == True
-    timeout: 200
+    timeout: 600
     """
     return _pa_cms(2, a0, a1, a2, r0, r1, r2)
 
@@ -178,7 +178,7 @@ def check_parallel_add_cms_w3(a0: int, a1: int, a2: int, r0: int, r1: int, r2: i
     """
     pre: 0 <= a0 < 3 and 0 <= a1 < 3 and 0 <= a2 < 3 and 0 <= r0 <= 10**6 and 0 <= r1 <= 10**6 and 0 <= r2 <= 10**6
     post: _ == True
-    timeout: 300
+    timeout: 600
     """
     return _pa_cms(3, a0, a1, a2, r0, r1, r2)
 
@@ -187,7 +187,7 @@ def check_parallel_add_cms_w4(a0: int, a1: int, a2: int, r0: int) -> bool:
     """
     pre: 0 <= a0 < 4 and 0 <= a1 < 4 and 0 <= a2 < 4 and 0 <= r0 <= 10**6
     post: _ == True
-    timeout: 400
+    timeout: 600
     tier: thorough
     """
     return _pa_cms(4, a0, a1, a2, r0, 2, 3)
@@ -195,10 +195,24 @@ def check_parallel_add_cms_w4(a0: int, a1: int, a2: int, r0: int) -> bool:
 
 def check_parallel_add_all(n_workers: int, a0: int, a1: int) -> bool:
     """
-    pre: 1 <= n_workers <= 5 and 0 <= a0 < n_workers and 0 <= a1 < n_workers
+    pre: 1 <= n_workers <= 3 and 0 <= a0 < n_workers and 0 <= a1 < n_workers
     post: _ == True
-    timeout: 200
+    timeout: 600
     """
+    return _pa_all(n_workers, a0, a1)
+
+
+def check_parallel_add_all_w45(n_workers: int, a0: int, a1: int) -> bool:
+    """
+    pre: 4 <= n_workers <= 5 and 0 <= a0 < n_workers and 0 <= a1 < n_workers
+    post: _ == True
+    timeout: 600
+    tier: thorough
+    """
+    return _pa_all(n_workers, a0, a1)
+
+
+def _pa_all(n_workers, a0, a1):
     for n in range(1, 6):
         if n_workers == n:
             n_workers = n
@@ -272,7 +286,7 @@ def check_c19_callback_raises_w1(f0: int, f1: int, r0: int, r1: int) -> bool:
     """
     pre: 0 <= f0 <= 2 and 0 <= f1 <= 2 and 0 <= r0 <= 10**6 and 0 <= r1 <= 10**6
     post: _ == True
-    timeout: 300
+    timeout: 600
     """
     return _c19_raises(1, 0, 0, f0, f1, r0, r1)
 
@@ -281,7 +295,7 @@ def check_c19_callback_raises_w2(a0: int, a1: int, f0: int, f1: int, r0: int, r1
     """
     pre: 0 <= a0 < 2 and 0 <= a1 < 2 and 0 <= f0 <= 2 and 0 <= f1 <= 2 and 0 <= r0 <= 10**6 and 0 <= r1 <= 10**6
     post: _ == True
-    timeout: 300
+    timeout: 600
     """
     return _c19_raises(2, a0, a1, f0, f1, r0, r1)
 
@@ -290,7 +304,7 @@ def check_c19_dead_worker(n_workers: int, dead: int, code: int) -> bool:
     """
     pre: 1 <= n_workers <= 3 and 0 <= dead < n_workers and -15 <= code <= 255 and code != 0
     post: _ == True
-    timeout: 200
+    timeout: 600
     """
     for n in range(1, 4):
         if n_workers == n:
@@ -374,6 +388,10 @@ def real_parallel_add_cms_w1(r0, r1, r2): return _real_parallel(3, 1, [r0, r1, r
 def real_parallel_add_cms_w2(a0, a1, a2, r0, r1, r2): return _real_parallel(3, 2, [r0, r1, r2], [0, 0, 0], ["cms"])
 def real_parallel_add_cms_w3(a0, a1, a2, r0, r1, r2): return _real_parallel(3, 3, [r0, r1, r2], [0, 0, 0], ["cms"])
 def real_parallel_add_cms_w4(a0, a1, a2, r0): return _real_parallel(3, 4, [r0, 2, 3], [0, 0, 0], ["cms"])
+
+
+def real_parallel_add_all_w45(n_workers, a0, a1):
+    return _real_parallel(2, n_workers, [3, 4], [0, 0], ["cms", "hh", "hll"])
 
 
 def real_parallel_add_all(n_workers, a0, a1):
